@@ -166,6 +166,9 @@ func (q *Query) parseTokens(tokens []token) ([]token, error) {
 				return tokens, errors.New(invalidQuery + unexpectedEnd)
 			}
 			tokens, q.GroupBy = tokensConsumeStr(tokens)
+			if len(q.GroupBy) == 0 {
+				return tokens, errors.New(invalidQuery + "expected field name(s) after 'group by'")
+			}
 			q.GroupKey = strings.Join(q.GroupBy, ",")
 		case "rorder":
 			tokens = tokensConsumeOptional(tokens[1:], "by")
